@@ -49,6 +49,23 @@ fn small_call_sets() -> Vec<(&'static str, CallSet)> {
     let mut c = CallSet::new(2);
     c.push_gts(&["0/1", "1|1"]);
     out.push(("single-record", c));
+    // (d) legal but unusual records: monomorphic (ALT=.) with and without missing calls, a record
+    // without any FORMAT field, a record whose FORMAT has no GT key, between ordinary records
+    let mut d = CallSet::new(3);
+    d.push_gts(&["0/1", "0/0", "1|1"]);
+    d.push_gts(&["0/0", "./.", "0|0"]);
+    d.records[1].alts = vec![];
+    d.push_gts(&["0/0", "0|0", "0/0"]);
+    d.records[2].alts = vec![];
+    d.push_gts(&[crate::gen::NO_FORMAT; 3]);
+    d.push_gts(&["1/1", "0/1", "0/0"]);
+    d.push_gts(&[crate::gen::NO_GT_KEY; 3]);
+    d.push_gts(&["0/1", ".|.", "1/1"]);
+    d.push_gts(&[crate::gen::NO_FORMAT; 3]);
+    d.records[7].alts = vec![];
+    d.records[7].chrom = 1;
+    d.push_gts(&["0|1", "1/1", "1|0"]);
+    out.push(("unusual-records-3-samples", d));
     out
 }
 
@@ -142,7 +159,7 @@ fn observe_orders(d: usize) -> (usize, usize, bool) {
 
 pub fn run(tier: Tier) -> i32 {
     let mut rep = Report::new("C12", tier, "exploration");
-    rep.rule = "configuration grid, enumerated completely: call sets {3 small incl. missing / multiallelic / two contigs / extra fields, one of 2 600 records (~150 KiB, several 64 KiB BGZF blocks)} x container {vcf, vcf.gz, bcf, raw bcf} x BGZF layout (12: single block, one record per block, 1/7/64/4096/65280-byte blocks, empty block in front/middle/end, stored blocks - for the large call set with first blocks of 8, 16, 32 and 64 KiB compressed size -, no EOF marker) x transport {path, stdin} (small call sets also: real pipe, FIFO by path, /dev/stdin; and ten file names) x --threads 1..16 x 2 repetitions (fresh process = fresh hash seeds) x 2 sample configurations; every run's stdout and exit status must equal the canonical run (plain VCF by path, 1 thread). L1: the same containers through the real reader construction with set_threads, and the hash-order observer. Non-trivial = compressed multi-block container with >=2 threads, or stdin transport.".into();
+    rep.rule = "configuration grid, enumerated completely: call sets {4 small incl. missing / multiallelic / two contigs / extra fields / monomorphic records / records without FORMAT or without a GT key, one of 2 600 records (~150 KiB, several 64 KiB BGZF blocks)} x container {vcf, vcf.gz, bcf, raw bcf} x BGZF layout (12: single block, one record per block, 1/7/64/4096/65280-byte blocks, empty block in front/middle/end, stored blocks - for the large call set with first blocks of 8, 16, 32 and 64 KiB compressed size -, no EOF marker) x transport {path, stdin} (small call sets also: real pipe, FIFO by path, /dev/stdin; and ten file names) x --threads 1..16 x 2 repetitions (fresh process = fresh hash seeds) x 2 sample configurations; every run's stdout and exit status must equal the canonical run (plain VCF by path, 1 thread). L1: the same containers through the real reader construction with set_threads, and the hash-order observer. Non-trivial = compressed multi-block container with >=2 threads, or stdin transport.".into();
     let scratch = Scratch::new("c12");
     let smalls = small_call_sets();
     let big = big_call_set();
@@ -399,7 +416,7 @@ pub fn run(tier: Tier) -> i32 {
 
     // L1: reader construction with set_threads over in-memory containers
     let mut lj: Vec<(usize, Container, Layout, usize)> = Vec::new();
-    for si in 0..3 {
+    for si in 0..sets.len() - 1 {
         for c in Container::all() {
             let layouts = if c.compressed() { all_layouts() } else { vec![Layout::Single] };
             for l in layouts {
@@ -427,7 +444,7 @@ pub fn run(tier: Tier) -> i32 {
             Err(p) => Err(format!("panic: {p}")),
         }
     };
-    let lib_canon: Vec<_> = (0..3).map(|si| lib_obs(si, Container::Vcf, &Layout::Single, 1)).collect();
+    let lib_canon: Vec<_> = (0..sets.len() - 1).map(|si| lib_obs(si, Container::Vcf, &Layout::Single, 1)).collect();
     let res = par_map(lj.len(), |i| {
         let (si, c, l, t) = &lj[i];
         let o = lib_obs(*si, *c, l, *t);
